@@ -41,12 +41,12 @@ func (c cOp) String() string {
 }
 
 type c08Harness struct {
-	Name      string   `json:"name"`
-	Immutable bool     `json:"immutable_tags"`
-	HTTP      bool     `json:"through_ociserver"`
-	Prologue  []Op     `json:"prologue"`
-	Threads   [][]cOp  `json:"threads"`
-	Schedule  []int32  `json:"schedule,omitempty"`
+	Name      string  `json:"name"`
+	Immutable bool    `json:"immutable_tags"`
+	HTTP      bool    `json:"through_ociserver"`
+	Prologue  []Op    `json:"prologue"`
+	Threads   [][]cOp `json:"threads"`
+	Schedule  []int32 `json:"schedule,omitempty"`
 }
 
 type c08Event struct {
@@ -66,14 +66,14 @@ func c08NextSeq() int64 {
 }
 
 type c08Exec struct {
-	h      c08Harness
-	u      *universe
-	reg    ociregistry.Interface
-	mem    *ocimem.Registry
-	model0 *Model // model after the prologue
-	events [][]c08Event
-	final  []Obs
-	hands  []ociregistry.BlobWriter
+	h        c08Harness
+	u        *universe
+	reg      ociregistry.Interface
+	mem      *ocimem.Registry
+	model0   *Model // model after the prologue
+	events   [][]c08Event
+	final    []Obs
+	hands    []ociregistry.BlobWriter
 	panicMsg string
 }
 
